@@ -373,7 +373,7 @@ class Verdict:
 
 
 NEGATIVES_FOR = {"C01": ["ResourceImpl_orig", "NEG_ResourceImpl_none"], "C02": ["NEG_ResourceImpl_notifyone"], "C03": ["NEG_ResourceImpl_barge"],
-                 "C12": ["NEG_ResourceImpl_nomerge"], "C08": ["MC_Pool_orig.cfg"], "C09": ["physdestroy"], "C11": ["MC_ConcRouter_"],
+                 "C12": ["NEG_ResourceImpl_nomerge"], "C07": ["NEG_Pool_queuefirst", "NEG_Pool_none"], "C08": ["MC_Pool_orig.cfg", "NEG_Pool_noclear", "NEG_Pool_stopone"], "C09": ["physdestroy"], "C11": ["MC_ConcRouter_"],
                  "C15": ["origrace", "expiryrace", "oneshot_code_ListWriteExclusive"], "C20": ["ThreadStart_"]}
 
 
